@@ -33,6 +33,7 @@ type ACase struct {
 	Op    string `json:"op"`
 	FKind string `json:"fkind"` // init family
 	N     int    `json:"n"`
+	Where string `json:"where"` // inherited-member family: same | sameacct | otheracct
 }
 
 type AResult struct {
@@ -195,16 +196,149 @@ func indent(s, ind string) string {
 
 func initProgram(c *ACase) string {
 	var body strings.Builder
-	for i := 0; i < c.N; i++ {
+	for i := 0; i < c.N && c.N <= 2; i++ {
 		fmt.Fprintf(&body, "self.x = %d; ", i)
 	}
 	decl := fmt.Sprintf("access(all) %s x: Int", c.FKind)
+	if c.N == 3 {
+		// assignment, conditional return, second assignment
+		return fmt.Sprintf("access(all) contract K {\n  access(all) %s Q {\n    %s\n    init(c: Bool) { self.x = 1; if c { return }; self.x = 2 }\n  }\n  init() {}\n}\n", c.CKind, decl)
+	}
 	switch c.CKind {
 	case "contract":
 		return fmt.Sprintf("access(all) contract K {\n  %s\n  init() { %s}\n}\n", decl, body.String())
 	default:
 		return fmt.Sprintf("access(all) contract K {\n  access(all) %s Q {\n    %s\n    init() { %s}\n  }\n  init() {}\n}\n", c.CKind, decl, body.String())
 	}
+}
+
+
+// ---- members declared in an interface (default functions, requirements implemented by the conformer)
+
+func inhPrograms(c *ACase) (ib string, o string, oAddr byte, script string) {
+	pfx := "IB."
+	if c.Where == "same" {
+		pfx = ""
+	}
+	mod := func(p string) string {
+		if c.Mod == "E" {
+			return "access(" + p + "E)"
+		}
+		return "access(" + c.Mod + ")"
+	}
+	var inIface, inT, initT, access string
+	switch c.MKind {
+	case "default":
+		inIface = mod("") + " fun dm(): Int { return 1 }"
+		access = "let x = %s.dm()"
+	case "implfun":
+		inIface = mod("") + " fun rm(): Int"
+		inT = mod(pfx) + " fun rm(): Int { return 2 }"
+		access = "let x = %s.rm()"
+	default:
+		inIface = mod("") + " var rf: Int"
+		inT = mod(pfx) + " var rf: Int"
+		initT = "self.rf = 0"
+		access = "let x = %s.rf"
+	}
+	stmt := func(recv string) string { return fmt.Sprintf(access, recv) }
+	none := "let z = 0"
+	sDefault, sIB, sT, sSib, sTC := none, none, none, none, none
+	switch c.Site {
+	case "SI.default":
+		sDefault = stmt("self")
+	case "IB.fun":
+		sIB = stmt("v")
+	case "T.self":
+		sT = stmt("self")
+	case "T.new":
+		sT = stmt("T()")
+	case "T.ref":
+		sT = "let o = T()\nlet r = &o as &T\n" + stmt("r")
+	case "T.iface":
+		sT = "let v: {" + pfx + "SI} = T()\n" + stmt("v")
+	case "T.sibling":
+		sSib = stmt("T()")
+	case "TC.fun":
+		sTC = stmt("T()")
+	}
+	tBlock := fmt.Sprintf(`  access(all) struct T: %sSI {
+    %s
+    init() { %s }
+    access(all) fun siteT(): Int {
+%s      return 0
+    }
+  }
+  access(all) struct Sib {
+    access(all) fun site(): Int {
+%s      return 0
+    }
+  }
+  access(all) fun site(): Int {
+%s    return 0
+  }
+  access(all) fun mk(): T { return T() }
+`, pfx, inT, initT, indent(sT, "      "), indent(sSib, "      "), indent(sTC, "    "))
+	ibT := ""
+	if c.Where == "same" {
+		ibT = tBlock
+	}
+	ib = fmt.Sprintf(`access(all) contract IB {
+  access(all) entitlement E
+  access(all) struct interface SI {
+    %s
+    access(all) fun siteDefault(): Int {
+%s      return 0
+    }
+  }
+%s  access(all) fun siteIB(_ v: {SI}): Int {
+%s    return 0
+  }
+}
+`, inIface, indent(sDefault, "      "), ibT, indent(sIB, "    "))
+	tc := "IB"
+	oAddr = 1
+	if c.Where != "same" {
+		tc = "O"
+		if c.Where == "otheracct" {
+			oAddr = 2
+		}
+		o = "import IB from 0x1\naccess(all) contract O {\n" + tBlock + "}\n"
+	}
+	if c.Site == "script" {
+		script = fmt.Sprintf("import %s from 0x%d\naccess(all) fun main(): Int {\n  %s\n  return 0\n}\n", tc, oAddr, stmt(tc+".mk()"))
+	}
+	return
+}
+
+func runInhCase(c *ACase, w *host.World, res *AResult, srcs *[]string) {
+	ib, o, oAddr, script := inhPrograms(c)
+	inIB := c.Site == "SI.default" || c.Site == "IB.fun" || (c.Where == "same" && c.Site != "script")
+	*srcs = append(*srcs, "// deploy IB to 0x1\n"+ib)
+	err := w.Deploy(host.Addr(1), "IB", ib)
+	if inIB {
+		classifyAcc(err, res)
+		return
+	}
+	if err != nil {
+		res.Other = append(res.Other, "FIXTURE IB: "+lastLines(err.Error(), 8))
+		return
+	}
+	if o != "" {
+		*srcs = append(*srcs, fmt.Sprintf("// deploy O to 0x%d\n%s", oAddr, o))
+		err = w.Deploy(host.Addr(oAddr), "O", o)
+		if c.Site != "script" {
+			classifyAcc(err, res)
+			return
+		}
+		if err != nil {
+			res.Other = append(res.Other, "FIXTURE O: "+lastLines(err.Error(), 8))
+			return
+		}
+	}
+	*srcs = append(*srcs, "// script\n"+script)
+	r := w.Script(script, false)
+	classifyAcc(r.Err, res)
 }
 
 // findCheckerError digs the sema.CheckerError out of a runtime error chain.
@@ -279,6 +413,10 @@ func runAccCase(c *ACase, withSrc bool) AResult {
 	}()
 	if c.Kind == "init" {
 		classifyAcc(deploy(a1, "K", initProgram(c), false), &res)
+		return res
+	}
+	if c.Kind == "inh" {
+		runInhCase(c, w, &res, &srcs)
 		return res
 	}
 	switch c.Site {
